@@ -2012,7 +2012,9 @@ func decodeRunes(s string, n int) (string, int) {
 // not valid hex.
 func parseRune(hex string) rune {
 
-	n, err := strconv.ParseInt(hex, 16, 32)
+	// Note: ParseUint rejects the sign characters
+	// that ParseInt would accept, e.g. "+041".
+	n, err := strconv.ParseUint(hex, 16, 16)
 	if err != nil {
 		return -1
 	}
